@@ -252,8 +252,12 @@ def monitor (pid : String) (c0 a : List String) : String :=
        | "C19" => Spec.Mon.check19 cfg.maxLine (tag == "TAG=cmdonly") input evs ++ Spec.Mon.check8 evs
        | "C13" => Spec.Mon.check13 cfg.lmtp cfg.lmtpSess be.data drecs evs
        | "C05" => Spec.Mon.checkBait input evs ++ Spec.Mon.checkExpect expect drecs
-       | "C02" => Spec.Mon.checkBait input evs
-       | "C06" => Spec.Mon.checkBait input evs ++
+       | "C02" => Spec.Mon.checkBait input evs ++ Spec.Mon.checkResume cfg.lmtp input evs
+       | "C06" => Spec.Mon.checkBait input evs ++ Spec.Mon.checkResume cfg.lmtp input evs ++
+           (if tag == "TAG=fits" && evs.any (fun e => match e with
+                | .w bs => (match Spec.ReplySyntax.parse bs with | some rs => rs.any (·.code == 552) | none => false)
+                | _ => false)
+            then ["C06 a message within the limit was refused with 552"] else []) ++
            (if cfg.maxMsg > 0 && drecs.any (fun d => d.octets.length > cfg.maxMsg) then
               ["C06 the backend was handed more octets than the limit"] else []) ++
            (if cfg.maxMsg > 0 && evs.any (fun e => match e with | .mail _ _ o _ => o.size > cfg.maxMsg | _ => false) then
